@@ -569,7 +569,7 @@ def children(choices, start, bound, fbound=None):
     return out
 
 
-def explore(run_one, bound, root=((), ()), on_exec=None, max_execs=None, fbound=None):
+def explore(run_one, bound, root=((), ()), on_exec=None, max_execs=None, fbound=None, stop=None):
     """DFS below `root` = (prefix, expected widths). run_one(prefix, expect) -> Execution-like with
     .choices and .aborted. Returns number of executions.
 
@@ -604,5 +604,7 @@ def explore(run_one, bound, root=((), ()), on_exec=None, max_execs=None, fbound=
             sch.dispose()
         x = None
         if max_execs is not None and n >= max_execs:
+            return n, False
+        if stop is not None and stop():       # enough counterexamples from this world: do not dwell on it
             return n, False
     return n, True
